@@ -318,6 +318,26 @@ def c03_streams(tier, rng, ctx):
     for st in sts:
         st.judge_query = wf_judge_query
         st.judge = lambda l, o: ("PANIC" in o or "POISONED" in o or "CRASH" in o)
+    # path arguments that are not UTF-8 (a path is a byte string): whatever each call answers, the tree stays well formed and nothing panics.
+    # The mirror reads paths as text, so these histories are judged by the extracted WF checker on the implementation's own state alone.
+    odd = [b"/caf\xe9", b"/d/\xff\xfe", b"\xe9", b"/d/ok/\xc3", b"/\xf0\x9f/x"]
+    hs = []
+    pre = [op("mkdir_p", "/d/ok"), op("write_all", "/file", b"data"), op("symlink", "/lnk", "/file")]
+    for o in odd:
+        calls = [[op("mkfile", o)], [op("write_all", o, b"x")], [op("append_all", o, b"x")], [op("mkdir_p", o)], [op("mkdir_m", o, 0o700)], [op("mkfile_m", o, 0o600)],
+                 [op("symlink", o, "/file")], [op("symlink", "/l2", o)], [op("move_p", "/file", o)], [op("move_p", "/d", o)], [op("move_p", o, "/n")], [op("copy", "/file", o)],
+                 [op("copy", "/d", o)], [op("copy", o, "/n")], [op("remove", o)], [op("remove_all", o)], [op("set_cwd", o)], [op("chmod", o, 0o600)], [op("chown", o, 1, 2)],
+                 [op("exists", o), op("is_dir", o), op("read_all", o), op("readlink", o), op("all_paths", o), op("abs", o)]]
+        for c in calls:
+            hs.append("\t".join(["hist", "m", envspec(MEM_ENV)] + pre + c + [op("all_paths", "/"), op("read_all", "/file"), op("remove_all", "/d")]))
+            hs.append("\t".join(["hist", "m", envspec(MEM_ENV)] + pre + [op("set_cwd", "/d")] + c + c + [op("all_paths", "/")]))
+
+    def wf_post(line, out):
+        q = wf_judge_query(line, out)
+        return q if q else "is_absolute\t"
+    sts.append(Stream("non-utf8-arguments", "check", hs, impl_env=dict(MEM_ENV), post=wf_post, exhaustive=True,
+                      rule="every mutating call with a path argument that is not valid UTF-8 (as its own name, as the target or the source), once and twice: no panic, and the "
+                           "extracted WF checker accepts the implementation's state afterwards"))
     return sts
 
 
@@ -745,6 +765,25 @@ def c12_streams(tier, rng, ctx):
                          op("chown", "/", 5, 6), op("chmod", "/d", 0o700), op("copy", "/d", "/e"), op("all_paths", "/"), op("all_dirs", "/d"),
                          op("all_files", "/"), op("remove_all", "/d/d"), op("move_p", "/d", "/m")]:
                 hs.append("\t".join(["hist", "m", envspec(MEM_ENV)] + mk + [call, op("exists", "/"), op("is_dir", deep)]))
+    # link cycles of every shape x every call that follows links or walks a tree: each must come back, and the instance must answer afterwards
+    cyc_states = {
+        "mutual": [op("mkdir_p", "/x"), op("mkdir_p", "/y"), op("symlink", "/x/l1", "/y"), op("symlink", "/y/l2", "/x")],
+        "ancestor": [op("mkdir_p", "/x/a"), op("symlink", "/x/a/l", "/x")],
+        "self-dir": [op("mkdir_p", "/x"), op("symlink", "/x/l", "/x")],
+        "three": [op("mkdir_p", "/x"), op("mkdir_p", "/y"), op("mkdir_p", "/z"), op("symlink", "/x/l1", "/y"), op("symlink", "/y/l2", "/z"), op("symlink", "/z/l3", "/x")],
+        "sibling-back": [op("mkdir_p", "/p/x"), op("mkdir_p", "/p/y"), op("symlink", "/p/x/l", "/p/y"), op("symlink", "/p/y/up", "/p")],
+        "root-link": [op("mkdir_p", "/x"), op("mkdir_p", "/y"), op("symlink", "/x/l1", "/y"), op("symlink", "/y/l2", "/x"), op("symlink", "/r", "/x")],
+        "file-between": [op("mkdir_p", "/x"), op("mkdir_p", "/y"), op("write_all", "/y/f", b"f"), op("symlink", "/x/l1", "/y"), op("symlink", "/y/l2", "/x"), op("write_all", "/x/g", b"g")],
+    }
+    for nm, st in cyc_states.items():
+        for root in ["/x", "/", "/r", "/x/l1", "/p"]:
+            for call in ["entries:%s:follow=1" % hx(root), "entries:%s:sort,follow=1" % hx(root), "entries:%s:follow=1,cf" % hx(root), "entries:%s:sort,follow=1,df,dirs" % hx(root),
+                         "entries:%s:follow=1,max=3" % hx(root), "chown_b:%s:uid=9,follow=1" % hx(root), "chown_b:%s:gid=3,follow=1,norecurse" % hx(root),
+                         "chmod_b:%s:follow=1,all=448:" % hx(root), "chmod_b:%s:follow=1:%s" % (hx(root), hx("a:a+r")), "copy_b:%s:%s:follow=1" % (hx(root), hx("/copy")),
+                         op("copy", root, "/copy"), op("all_paths", root), op("remove_all", root), op("move_p", root, "/moved")]:
+                if nm == "file-between" and not (call.startswith("entries:") and "sort" in call):
+                    continue          # two children in one directory: only a sorted traversal has a determined order
+                hs.append("\t".join(["hist", "m", envspec(MEM_ENV)] + st + [call, op("exists", "/"), op("is_dir", "/x")]))
     # the path helpers are calls too: every unary helper on all short strings over separators, dots, 1-, 2- and 3-byte characters, and the
     # adversarial arguments; every binary helper on pairs of them
     import c_path
@@ -820,7 +859,8 @@ def c20_streams(tier, rng, ctx):
         for d in ["xy", "", "é\n", "other"]:
             finals.append("macro:read_all:%s:%s" % (hx(p), hx(d)))
             finals.append("macro:write_all:%s:%s" % (hx(p), hx(d)))
-        for t in ["/a", "/b", "../b", "b", "/nope", "/a/b"]:
+        # expected targets: right ones, wrong ones, and other spellings of right ones (a trailing or doubled separator, './'): the macros compare text
+        for t in ["/a", "/b", "../b", "b", "/nope", "/a/b", "b/", "../b/", "..//b", ".././b", "./b", "/a/", "/a//b", "/b/.", "a", "a/", "../a", "../a/"]:
             finals.append("macro:readlink:%s:%s" % (hx(p), hx(t)))
             finals.append("macro:readlink_abs:%s:%s" % (hx(p), hx(t)))
             finals.append("macro:symlink:%s:%s" % (hx(p), hx(t)))
